@@ -288,7 +288,9 @@ func (db *RockDB) buildFullScanIterator(storeDataType byte, table,
 
 	dbLog.Debugf("full scan range: %v, %v, %v, %v", minKey, maxKey, string(minKey), string(maxKey))
 	//	minKey = minKey[:0]
-	it, err := db.NewDBRangeLimitIterator(minKey, maxKey, common.RangeOpen, 0, count+1, false)
+	// no limit on the iterator: the entries which do not match are skipped by the scan loop and
+	// must not use up the count, the loop stops after count results anyway
+	it, err := db.NewDBRangeIterator(minKey, maxKey, common.RangeOpen, false)
 	if err != nil {
 		return nil, err
 	}
